@@ -357,6 +357,20 @@ private:
          int this_handler_flags, IUsageText* txt1, IUsageText* txt2,
          bool value_handler) noexcept( false);
 
+   /// Determines the argument handler that a long argument from the command
+   /// line belongs to, as if all arguments were defined in one handler: the
+   /// handler that defines exactly this key, otherwise the only handler in
+   /// which the key is an abbreviation of an argument.
+   ///
+   /// @param[in]  arg_string  The long argument as given on the command line.
+   /// @return  The handler that the argument belongs to, NULL if no handler
+   ///          knows this argument.
+   /// @throw
+   ///    std::runtime_error if the key is an abbreviation of arguments in
+   ///    more than one handler.
+   const Handler* findKeyOwner( const std::string& arg_string) const
+      noexcept( false);
+
    /// Stream to write output to.
    std::ostream&                  mOutput;
    /// Stream to write error output to.
